@@ -9,6 +9,7 @@ import (
 	"fmt"
 	"net/http"
 	"net/http/httptest"
+	"net/url"
 	"regexp"
 	"strings"
 	"testing"
@@ -228,6 +229,24 @@ func evaluate(c Case) (o vev.Outcome) {
 		var l internal.Location
 		if err := xml.Unmarshal(b, &l); err != nil || l.Href.Path != s {
 			return out("href", "xml-roundtrip", "path %q through %q gives %q, %v", s, b, l.Href.Path, err)
+		}
+		// as the request-target and as the Destination header of a client call (added after seeded change C16-s9)
+		var seenPath, seenDest string
+		hc, _ := vwire.Client(http.HandlerFunc(func(w http.ResponseWriter, r *http.Request) {
+			seenPath, seenDest = r.URL.Path, r.Header.Get("Destination")
+			w.WriteHeader(http.StatusCreated)
+		}))
+		if cl, err := webdav.NewClient(hc, "http://dav.example/"); err == nil {
+			if err := cl.Mkdir(context.Background(), s); err == nil && seenPath != s {
+				return out("href", "request-target", "Mkdir(%q) reached the server as %q", s, seenPath)
+			}
+			if err := cl.Move(context.Background(), "/src", s, nil); err == nil {
+				if u, perr := url.Parse(seenDest); perr != nil {
+					return out("href", "destination-header", "Move(.., %q) sent Destination %q: %v", s, seenDest, perr)
+				} else if u.Path != s {
+					return out("href", "destination-header", "Move(.., %q) sent Destination %q, which denotes path %q", s, seenDest, u.Path)
+				}
+			}
 		}
 	case "href/reject":
 		var d internal.Href
